@@ -1102,6 +1102,9 @@ def signature(source: str) -> Tuple[list[Party], list[Input], list[Output]]:
         and len(outputs) > 0
         and all(isinstance(output, Output) for output in outputs)
     ):
-        return Abstract.signature()
+        # The outputs of the program are the ones that the main function
+        # returns (in that order), not every output that was constructed.
+        (parties, inputs, _) = Abstract.signature()
+        return (parties, inputs, list(outputs))
 
     raise ValueError("nada_main must return a sequence of outputs")
